@@ -1,7 +1,7 @@
 //! Ribbit TCP protocol implementation
 
 use crate::error::{ProtocolError, Result};
-use crate::mime_parser::{is_v1_mime_response, parse_v1_mime_to_bpsv};
+use crate::mime_parser::{is_v1_mime_response, parse_v1_mime_response, parse_v1_mime_to_bpsv};
 use cascette_formats::CascFormat;
 use cascette_formats::bpsv::BpsvDocument;
 use std::time::Duration;
@@ -68,6 +68,16 @@ impl RibbitClient {
         // Detect if this is a V1 MIME response
         if is_v1_mime_response(&raw_response) {
             debug!("Detected V1 MIME response, parsing with signature verification");
+            // A V1 response always ends with a "Checksum:" epilogue. The MIME parser
+            // treats it as optional, so a connection closed mid-response (the cut
+            // removes the epilogue) would otherwise be accepted with whatever rows
+            // arrived: without the epilogue the response is incomplete.
+            if parse_v1_mime_response(&raw_response)?.checksum.is_none() {
+                return Err(ProtocolError::Parse(
+                    "V1 response has no checksum epilogue (truncated response)".to_string(),
+                ));
+            }
+
             // Use the new MIME parser for V1 responses
             parse_v1_mime_to_bpsv(&raw_response)
         } else {
